@@ -253,3 +253,20 @@ CHECKS["C20"] = {
             "naming the row; convention-violating content warned without raising.",
     "note": _NOTE,
 }
+
+CHECKS["C04"] = {
+    "design_ref": "DESIGN.md section 5 C04",
+    "technique": "runtime reference-model monitors: every observed call of 30 "
+                 "metric functions is recomputed by an independent executable "
+                 "specification (exact rationals / brute force) with "
+                 "near-threshold margin skipping; key and tempo-flag domains "
+                 "enumerated",
+    "text": "Every observed call (client and internal) of the listed beat, onset, "
+            "boundary, melody, multipitch, transcription(+velocity), tempo, key, "
+            "alignment and pattern functions whose input was not within 1e-7 of a "
+            "threshold agreed to 1e-9 with an independent restatement of the "
+            "documented definition; the key-pair table and the tempo hit-flag "
+            "domain were enumerated completely; the information-gain if/elif slip "
+            "is a listed finding.",
+    "note": _NOTE,
+}
